@@ -19,7 +19,7 @@ def one(d):
     json.dump(m, open(p, 'w'), indent=1)
     return os.path.basename(d), m['caught_by_own_property'], m['caught_by']
 dirs = sorted(glob.glob('/verif/seeded/*'))
-with ThreadPoolExecutor(4) as ex:
+with ThreadPoolExecutor(7) as ex:
     res = list(ex.map(one, dirs))
 own = sum(1 for r in res if r[1])
 print('seeds', len(res), 'caught by own property', own)
